@@ -694,7 +694,9 @@ func vLiveCands(metric DistanceKind, live map[uint32][]float32, q []float32) []v
 	return c
 }
 
-func (s *vHnswSys) Key() string {
+func (s *vHnswSys) Key() string { return s.keyCanon() + "#deep" + vDeepHash(s.idx) }
+
+func (s *vHnswSys) keyCanon() string {
 	return vCanonVec(s.idx) + "#" + s.m.key() + fmt.Sprintf("#%d/%d/%d/%d/%d/%d/%d/%d", s.nAdd, s.nRem, s.nFl, s.nLvl, s.resident, s.maxRes, s.maxEver, s.nReadd)
 }
 
